@@ -33,6 +33,22 @@ CHECKS = {
         text='(a) get_connected_components / split_mapping_by_keys on every series-by-level incidence pattern (3x3 quick, 4x4 thorough) and level order: groups equal the true chains of overlap and the kept group is a largest one.  (b) get_series_time_offsets run twice on the same symbolic series (concrete level patterns from a small value set, symbolic abscissae): second run permuted (all permutations) with an arbitrary per-series axis shift; obligations: same intervals included, the included set is one whole group, offset+crossing of every interval at every level differs between the runs by one common constant, master curve likewise.',
         note='R-mode; level values concrete (control flow depends only on them), abscissae and shifts symbolic reals; one open known finding (single-interval main body crashes).',
         ref='5/C08'),
+    'C07': dict(
+        text='(a1) the real classify_intervals on symsql at two symbolic integer origins e and e+delta with the same symbolic record (all validity patterns, G grid steps): every table equal up to the shift, by SMT/structural equality per cell; (a2) the whole workflow (classify, set-zeta-grid, rise, recession) on a planted record at two symbolic origins; (b) bit-precise: the rise flags that classify_interstorms computes for symbolic Float64 water levels and threshold at origins e and e+k*step (32-bit epochs via bit-vector twins) are captured and proved equal by an origin-cone decomposition over one-shot QF_BVFP queries; witness replays through the real CLI at two dates.',
+        note='(a) over the reals; (b) IEEE doubles for the rate computation only; zeta and threshold in [2**-10, 1e6]; steps 1200/1800 s quick, 600..3600 s thorough; when the code keeps absolute time out of float expressions (b) is discharged structurally, otherwise the solver searches for origins and data and may end inconclusive (exit 3), never as success.',
+        ref='5/C07'),
+    'C09': dict(
+        text='F: the real compute_rise_offsets / compute_offsets run in symsql on a planted dataset with a symbolic reference ref = fl(k*step) (k a symbolic integer with a bit-vector twin, |k| <= 1024 quick / 32768 thorough, 7 / 11 grid steps): proved by one-shot QF_BVFP queries that the reference is not refused and that the level index used as dictionary key equals k; half-way references fl((2k+1)*step/2) are proved to be refused.  R: with symbolic rain depths, for every level k of the curve the master-curve view is proved zero at k*step, and at the highest level without a reference.',
+        note='F: only the reference block is bit-precise (data are exact rationals); off-grid is exercised on half-way points only; a multiple no interval crosses (KeyError) is outside; R over the reals.',
+        ref='5/C09'),
+    'C14': dict(
+        text='Spline / SplineSpecificYield executed with FITPACK replaced by its contract (uninterpreted interpolating S and antiderivative F, splint clipping to the knot range): for symbolic strictly increasing knots (4) and concrete knot sets (4, thorough 5 and 6), symbolic knot values and symbolic limits a,b,c in every ordering relative to each other and to both ends: value at every knot, constancy outside, integrate(a,b)=G(b)-G(a) for the antiderivative G of the clamped function, additivity and antisymmetry -- each an SMT obligation per path.',
+        note='The FITPACK facts assumed are checked on the installed scipy at every run; FITPACK accuracy itself is outside; witness replays compare the real code with quadrature of the real function.',
+        ref='5/C14'),
+    'C15': dict(
+        text='SplineTransmissivity executed with quad replaced by an uninterpreted integral whose integrand is evaluated at one symbolic point (one path per linear piece), exp/log uninterpreted with exp(log t)=t: proved for symbolic knots (2-3 quick, 4 thorough), conductivities and level: T_min at and below the lowest knot, otherwise exactly one integral from the lowest knot to the level, integrand = exp(linear interpolant of log K) > 0, result T_min + integral; array and scalar calls produce identical terms; no exception up to the highest knot.',
+        note='Monotonicity/continuity follow from the proved facts plus additivity of integrals; QUADPACK accuracy is only sampled at witness replays (closed form, 1e-6).',
+        ref='5/C15'),
     'C12': dict(
         text='regrid and build_head_mapping executed on symbolic series (2..3 samples quick, 4 thorough; |y|/step <= 2; x any strictly increasing reals; several concrete steps) with interp1d/brentq replaced by their contracts; every yielded item is proved to be the next expected level of its pair, between the two samples and on the chord; nothing missing, nothing extra.',
         note='R-mode; brentq contract = root strictly between the end points when signs differ; the nonlinear chord equation is kept as a lazy fact used only by obligations; numerical accuracy of scipy is outside (witness replays compare with the exact crossing to 1e-6).',
